@@ -1118,6 +1118,41 @@ def check_domains(F, rep):
     rep.floor("sqrt/ln/powf/acos/asin call sites", n_const + n_shape + n_table + n_open, 42)
 
 
+def _sentinel_scan(body):
+    """[(local, sentinel constant, tested after the loop?)] for every min-search local of `body` that is lowered only conditionally inside a
+    loop and reaches the tail expression"""
+    sent = {}
+    for n, parents in facts.walk(body):
+        if n.get("k") == "let" and isinstance(n.get("pat"), dict) and n["pat"].get("k") == "bind" and n["pat"].get("mut") and isinstance(n.get("init"), dict):
+            r = n["init"].get("res") if n["init"].get("k") == "path" else None
+            if isinstance(r, dict) and isinstance(r.get("c"), dict) and r["c"].get("n") in ("MAX", "INFINITY", "MIN", "NEG_INFINITY") \
+                    and str(r["c"].get("v", "")).startswith(("f64:", "f32:")):
+                sent[n["pat"]["n"]] = r["c"]["n"]
+    out = []
+    for name, const in sent.items():
+        assigned_in_loop = reaches_result = tested = False
+        for n, parents in facts.walk(body):
+            is_x = lambda e: isinstance(e, dict) and e.get("k") == "path" and isinstance(e.get("res"), dict) and e["res"].get("k") == "local" and e["res"].get("n") == name
+            if n.get("k") == "assign" and is_x(n["a"][0]) and any(p_.get("k") == "loop" for p_ in parents) and any(p_.get("k") == "if" for p_ in parents):
+                assigned_in_loop = True
+            if n.get("k") == "bin" and n.get("op") in ("==", "!=", ">=", "<") and not any(p_.get("k") == "loop" for p_ in parents):
+                sides = n["a"]
+
+                def is_const(e):
+                    r_ = e.get("res") if isinstance(e, dict) and e.get("k") == "path" else None
+                    return isinstance(r_, dict) and isinstance(r_.get("c"), dict) and r_["c"].get("n") == const
+                if (is_x(sides[0]) and is_const(sides[1])) or (is_x(sides[1]) and is_const(sides[0])):
+                    tested = True
+            if n.get("k") == "mcall" and n.get("n") in ("is_finite", "is_infinite") and is_x(n.get("r")) and not any(p_.get("k") == "loop" for p_ in parents):
+                tested = True
+        tail = body.get("e")
+        if isinstance(tail, dict):
+            reaches_result = any(x.get("k") == "path" and isinstance(x.get("res"), dict) and x["res"].get("n") == name for x, _q in facts.walk(tail))
+        if assigned_in_loop and reaches_result:
+            out.append((name, const, tested))
+    return out
+
+
 def check_sentinels(F, rep):
     """SENTINEL: a search that starts from a huge sentinel (`let mut m = f64::MAX`, `INFINITY`) and only lowers it under a condition inside a
     loop returns the sentinel itself when no candidate qualifies -- a finite input then yields 1.8e308 (infinity as f32, NaN after a
@@ -1133,41 +1168,27 @@ def check_sentinels(F, rep):
     for b in F.bodies:
         if not b["file"].startswith("palette/src/") or "::test" in b["path"] or b["dk"] not in ("Fn", "AssocFn"):
             continue
-        sent = {}
-        for n, parents in facts.walk(b["body"]):
-            if n.get("k") == "let" and isinstance(n.get("pat"), dict) and n["pat"].get("k") == "bind" and n["pat"].get("mut") and isinstance(n.get("init"), dict):
-                r = n["init"].get("res") if n["init"].get("k") == "path" else None
-                if isinstance(r, dict) and isinstance(r.get("c"), dict) and r["c"].get("n") in ("MAX", "INFINITY", "MIN", "NEG_INFINITY") \
-                        and str(r["c"].get("v", "")).startswith(("f64:", "f32:")):
-                    sent[n["pat"]["n"]] = r["c"]["n"]
-        if not sent:
+        found = _sentinel_scan(b["body"])
+        if not found:
             continue
         base = re.sub(r"::<[^>]*>", "", b["path"]).split("<")[0]
         if not any(c_ == base or c_.endswith("::" + b["name"]) for c_ in called):
             continue   # dead code
-        for name, const in sent.items():
-            assigned_in_loop = reaches_result = tested = False
-            for n, parents in facts.walk(b["body"]):
-                is_x = lambda e: isinstance(e, dict) and e.get("k") == "path" and isinstance(e.get("res"), dict) and e["res"].get("k") == "local" and e["res"].get("n") == name
-                if n.get("k") == "assign" and is_x(n["a"][0]) and any(p_.get("k") == "loop" for p_ in parents) and any(p_.get("k") == "if" for p_ in parents):
-                    assigned_in_loop = True
-                if n.get("k") == "bin" and n.get("op") in ("==", "!=", ">=", "<") and not any(p_.get("k") == "loop" for p_ in parents):
-                    sides = n["a"]
-                    def is_const(e):
-                        r_ = e.get("res") if isinstance(e, dict) and e.get("k") == "path" else None
-                        return isinstance(r_, dict) and isinstance(r_.get("c"), dict) and r_["c"].get("n") == const
-                    if (is_x(sides[0]) and is_const(sides[1])) or (is_x(sides[1]) and is_const(sides[0])):
-                        tested = True
-                if n.get("k") == "mcall" and n.get("n") in ("is_finite", "is_infinite") and is_x(n.get("r")) and not any(p_.get("k") == "loop" for p_ in parents):
-                    tested = True
-            tail = b["body"].get("e")
-            if isinstance(tail, dict):
-                reaches_result = any(x.get("k") == "path" and isinstance(x.get("res"), dict) and x["res"].get("n") == name for x, _q in facts.walk(tail))
-            if assigned_in_loop and reaches_result:
-                n_s += 1
-                rep.ob("SENTINEL", "%s: %s" % (fn_key(b), name), tested,
-                       "`%s` starts at %s, is lowered only under a condition inside a loop and reaches the result %s" % (name, const, "after a test against the sentinel" if tested else "WITHOUT a not-found test"), F.loc(b))
-    rep.floor("sentinel searches", n_s, 1)
+        for name, const, tested in found:
+            n_s += 1
+            rep.ob("SENTINEL", "%s: %s" % (fn_key(b), name), tested,
+                   "`%s` starts at %s, is lowered only under a condition inside a loop and reaches the result %s" % (name, const, "after a test against the sentinel" if tested else "WITHOUT a not-found test"), F.loc(b))
+    # no floor: a rewrite of the search with Option<f64> has no sentinel at all, and that is fine.  Instead the matcher is exercised on a
+    # synthetic body of the same shape on every run (positive control): it must see one escaping sentinel there.
+    P = lambda n_: {"k": "path", "res": {"k": "local", "n": n_}}
+    C = {"k": "path", "res": {"k": "def", "c": {"n": "MAX", "v": "f64:1.7976931348623157e308"}}}
+    ctl = {"k": "block", "s": [
+        {"k": "let", "pat": {"k": "bind", "n": "best", "mut": True}, "init": C},
+        {"k": "expr", "e": {"k": "loop", "b": {"k": "block", "s": [{"k": "expr", "e": {"k": "if", "c": {"k": "bin", "op": ">", "a": [P("best"), P("t")]},
+                                                                     "th": {"k": "block", "s": [{"k": "semi", "e": {"k": "assign", "a": [P("best"), P("t")]}}]}}}]}}}],
+        "e": P("best")}
+    got = _sentinel_scan(ctl)
+    rep.ob("SENTINEL", "matcher control", got == [("best", "MAX", False)], "synthetic min-search without a not-found test: matcher reports %s" % got)
 
 
 def check_panics(F, rep):
